@@ -32,6 +32,7 @@ func runC17(c *Ctx) {
 	c.rule("exit-on-fresh-scan", "(shared with C05/C08) the monitor keeps stacking the file source's reports until a complete scan of the watching bits finds no watcher: another source calling Done never stops a still-watching file source from being heard", 1)
 	c.rule("refusal-reported", "the watch loop hands a non-nil result of ReportNewValue (a value a wrapping WatchArgs refused) to ReportError", 1)
 	c.rule("initial-check", "the watch loop looks at the file once when it starts, without waiting for an event (a change between the initial read and the setup of the watches raises none)", 1)
+	c.rule("filter-current-path", "the names the file-event filter compares an event's name with include the symlink-resolved config path as last re-resolved by the loop (and its directory), not a copy taken before the loop: after a symlink swap the file the config now resolves to is rewritten in place under that new name", 1)
 	c.rule("release", "the loop goroutine defers watcher.Close, WG.Done and signal.Stop at entry, returns on <-ctx.Done(), and WG.Add(1) precedes `go`", 4)
 
 	w := c.W
@@ -130,6 +131,8 @@ func runC17(c *Ctx) {
 		c.check(okInit, "initial-check", name, sel.Pos(), "the loop looks at the file once when it starts ("+how+")",
 			"the watch loop waits for an event before its first look at the file: a change made between the initial read (dials.Config / Blank.SetSource read the value first and start the watcher later) and the setup of the watches raises no event, so if it was the last change the view never converges to the file's final content")
 	}
+
+	c17FilterCurrentPath(c, loop, "filter-current-path")
 
 	// ---- checksum-after-decode --------------------------------------------------------
 	rec := w.fn("sources/file", "Source.lastHMACNew")
@@ -685,4 +688,105 @@ func c17OnlyViaNameFilter(entry *ssa.BasicBlock, sel *ssa.Select, reread *ssa.Ca
 		return true
 	})
 	return counter == ""
+}
+
+// c17FilterCurrentPath: the loop re-resolves the config path (EvalSymlinks inside the loop) and keeps the result in a
+// loop-carried variable or a field of a local; some comparison of the event's name must read that very variable, and
+// some comparison must read filepath.Dir of it.
+func c17FilterCurrentPath(c *Ctx, loop *ssa.Function, rule string) {
+	name := relName(loop)
+	var resolved ssa.Value
+	for _, i := range allInstrs(loop) {
+		if ci, ok := i.(*ssa.Call); ok && calleeFullName(ci) == "path/filepath.EvalSymlinks" && inLoop(ci) {
+			for _, r := range *ci.Referrers() {
+				if e, ok := r.(*ssa.Extract); ok && e.Index == 0 {
+					resolved = e
+				}
+			}
+		}
+	}
+	if resolved == nil {
+		c.bad(rule, name, loop.Pos(), "the watch loop never re-resolves the config path's symlinks")
+		return
+	}
+	// where the re-resolved path is kept
+	type place struct {
+		al  *ssa.Alloc
+		fld int // -1: the variable itself
+	}
+	var places []place
+	for _, r := range *resolved.Referrers() {
+		st, ok := r.(*ssa.Store)
+		if !ok || st.Val != resolved {
+			continue
+		}
+		switch a := st.Addr.(type) {
+		case *ssa.Alloc:
+			places = append(places, place{a, -1})
+		case *ssa.FieldAddr:
+			if al, ok := a.X.(*ssa.Alloc); ok {
+				places = append(places, place{al, a.Field})
+			}
+		}
+	}
+	var isCurrent func(v ssa.Value, seen map[ssa.Value]bool) bool
+	isCurrent = func(v ssa.Value, seen map[ssa.Value]bool) bool {
+		if v == resolved {
+			return true
+		}
+		if seen[v] {
+			return false
+		}
+		seen[v] = true
+		switch x := v.(type) {
+		case *ssa.Phi:
+			for _, e := range x.Edges {
+				if isCurrent(e, seen) {
+					return true
+				}
+			}
+		case *ssa.UnOp:
+			if x.Op != token.MUL {
+				return false
+			}
+			for _, pl := range places {
+				switch a := x.X.(type) {
+				case *ssa.Alloc:
+					if pl.fld == -1 && a == pl.al {
+						return true
+					}
+				case *ssa.FieldAddr:
+					if al, ok := a.X.(*ssa.Alloc); ok && al == pl.al && a.Field == pl.fld {
+						return true
+					}
+				}
+			}
+		}
+		return false
+	}
+	direct, viaDir, n := false, false, 0
+	for _, i := range allInstrs(loop) {
+		bo, ok := i.(*ssa.BinOp)
+		if !ok || (bo.Op != token.EQL && bo.Op != token.NEQ) {
+			continue
+		}
+		var other ssa.Value
+		switch {
+		case strings.HasSuffix(canon(bo.X), ".Name"):
+			other = bo.Y
+		case strings.HasSuffix(canon(bo.Y), ".Name"):
+			other = bo.X
+		default:
+			continue
+		}
+		n++
+		if isCurrent(other, map[ssa.Value]bool{}) {
+			direct = true
+		}
+		if call, ok := other.(*ssa.Call); ok && calleeFullName(call) == "path/filepath.Dir" && isCurrent(call.Call.Args[0], map[ssa.Value]bool{}) {
+			viaDir = true
+		}
+	}
+	c.check(n > 0 && direct && viaDir, rule, name+"#filter", resolved.Pos(), "the event filter reads the re-resolved config path the loop maintains, and its directory",
+		"no comparison of the event's name reads the config path as re-resolved by the loop (or its directory): the filter keeps a copy taken before the loop, so after a symlink swap events for the file the config now resolves to are dropped as unrelated and an in-place rewrite of it is never picked up")
 }
